@@ -38,7 +38,7 @@ func writeSetCheck(m *conc.Menu) string {
 func writeSetCheck0(m *conc.Menu) string {
 	for pi, p := range m.Menu {
 		sh := conc.NewShared()
-		heap := []tensor.Tensor{sh.S[0], sh.S[1], sh.S[2], sh.S[3], sh.S[4]}
+		heap := []tensor.Tensor{sh.S[0], sh.S[1], sh.S[2], sh.S[3], sh.S[4], sh.S[5]}
 		var local []tensor.Tensor
 		for ii, in := range p {
 			before := make([]conc.Digest, len(heap))
